@@ -26,8 +26,10 @@ contract('parso.tree.BaseNode.__init__', params={'self': 'ref:BaseNode', 'childr
                    'forall(lambda k: implies(0 <= k and k < len(children), children[k] is not None and children[k] is not self), '
                    'trigger=lambda k: children[k])'],
          ensures=['self.children is children', 'self.parent is None',
-                  'forall(lambda k: implies(0 <= k and k < len(children), children[k].parent is self), trigger=lambda k: children[k])'],
-         loops={0: dict(invariant=['self.children is children', 'self.parent is None',
+                  'forall(lambda k: implies(0 <= k and k < len(children), children[k].parent is self), trigger=lambda k: children[k])',
+                  # frame of the parent links: whoever's parent changed is now a child of self
+                  'forall(lambda x: implies(x is not self and x.parent is not old(x.parent), x.parent is self), kinds=dict(x="ref:NodeOrLeaf"), trigger=lambda x: x.parent)'],
+         loops={0: dict(invariant=['self.children is children', 'self.parent is None', 'forall(lambda x: implies(x is not self and x.parent is not old(x.parent), x.parent is self), kinds=dict(x="ref:NodeOrLeaf"), trigger=lambda x: x.parent)',
                                    'forall(lambda k: implies(0 <= k and k < _i, children[k].parent is self), trigger=lambda k: children[k])',
                                    'forall(lambda k: implies(0 <= k and k < len(children), children[k] is not None and children[k] is not self), '
                                    'trigger=lambda k: children[k])'])},
@@ -39,3 +41,17 @@ contract('parso.tree.Node.__init__', params={'self': 'ref:Node', 'type': 'str', 
          ensures=['self.children is children', 'self.type == type',
                   'forall(lambda k: implies(0 <= k and k < len(children), children[k].parent is self), trigger=lambda k: children[k])'],
          modifies=['self.type', 'self.children', 'self.parent', 'parent'], props=['C19'])
+
+# ---- Param regrouping (C11 parent links, C19): Param.__init__ and the parent discipline of _create_params
+contract('parso.python.tree.Param.__init__',
+         params={'self': 'ref:Param', 'children': 'list:ref:NodeOrLeaf', 'parent': 'ref:BaseNode'},
+         requires=['children is not None',
+                   'forall(lambda k: implies(0 <= k and k < len(children), children[k] is not None and children[k] is not self), '
+                   'trigger=lambda k: children[k])'],
+         ensures=['self.children is children', 'self.parent is parent',
+                  'forall(lambda k: implies(0 <= k and k < len(children), children[k].parent is self), trigger=lambda k: children[k])',
+                  # nothing else is re-parented: whoever's parent changed is now a child of self (or is self)
+                  'forall(lambda x: implies(x is not self and x.parent is not old(x.parent), x.parent is self), '
+                  'kinds=dict(x="ref:NodeOrLeaf"), trigger=lambda x: x.parent)'],
+         modifies=['self.children', 'self.parent', 'parent'], call_keys={'parso.tree.BaseNode.__init__': 'parso.tree.BaseNode.__init__'},
+         props=['C11', 'C19'])
